@@ -250,7 +250,9 @@ func genSigned(t *rapid.T) int64 {
 func TestLDAPTimestampToUnix(t *testing.T) {
 	s := vf.Begin(t, P, "ldap-timestamp-to-unix")
 	vf.Rapid(s, vf.N(30000, 400000), func(t *rapid.T) strCase { return strCase{genSigned(t)} }, checkLDAPTsToUnix,
-		func(c strCase) bool { return c.V >= epoch1601Ticks && interestingTicks(c.V, epoch1601Ticks, wintime.Epoch1601Unix) })
+		func(c strCase) bool {
+			return c.V >= epoch1601Ticks && interestingTicks(c.V, epoch1601Ticks, wintime.Epoch1601Unix)
+		})
 }
 
 func checkLDAPUnixToTs(c timeCase) []vf.Finding {
